@@ -19,6 +19,8 @@ RULE = (
     "inside one call"
 )
 TRUSTED = [
+    "T2 for _exec_once_impl: statement skeleton compared structurally, the flag-setting condition translated to Gallina "
+    "(gen_sets_flag) and proved equal to the model's `due` on every run (C28_gen.v); 25-line expression translator",
     "hand-written Gallina transcription of _ClsLevelDispatch / _EmptyListener / _ListenerCollection / _EventKey / "
     "registry bookkeeping and of util.walk_subclasses / util.only_once (pinned normalised source + step-by-step "
     "correspondence on every run)",
@@ -63,7 +65,6 @@ ANCHORS = [
     ("lib/sqlalchemy/event/attr.py", "_EmptyListener.for_modify"),
     ("lib/sqlalchemy/event/attr.py", "_EmptyListener.__call__"),
     ("lib/sqlalchemy/event/attr.py", "_CompoundListener._get_exec_once_mutex"),
-    ("lib/sqlalchemy/event/attr.py", "_CompoundListener._exec_once_impl"),
     ("lib/sqlalchemy/event/attr.py", "_CompoundListener.exec_once"),
     ("lib/sqlalchemy/event/attr.py", "_CompoundListener.exec_once_unless_exception"),
     ("lib/sqlalchemy/event/attr.py", "_CompoundListener._exec_w_sync_on_first_run"),
@@ -108,11 +109,90 @@ ANCHORS = [
 # results: [0] ok, [1, calls], [2, bool], [3] InvalidRequestError, [4] ValueError, [5] bad operation
 
 
+# ------------------------------------------------------------------ T2: the flag-setting condition of _exec_once_impl
+SKELETON_EXEC_ONCE_IMPL = (
+    "def _exec_once_impl(self, retry_on_exception, *args, **kw):\n"
+    "    with self._get_exec_once_mutex():\n"
+    "        if not self._exec_once:\n"
+    "            try:\n"
+    "                self(*args, **kw)\n"
+    "                exception = False\n"
+    "            except:\n"
+    "                exception = True\n"
+    "                raise\n"
+    "            finally:\n"
+    "                if HOLE:\n"
+    "                    self._exec_once = True"
+)
+
+
+def _bool_expr(e):
+    """Python boolean expression over {exception, retry_on_exception} -> Gallina (fails closed)"""
+    import ast
+
+    from translate.fingerprint import TranslateError
+
+    if isinstance(e, ast.Name) and e.id in ("exception", "retry_on_exception"):
+        return e.id
+    if isinstance(e, ast.Constant) and isinstance(e.value, bool):
+        return "true" if e.value else "false"
+    if isinstance(e, ast.UnaryOp) and isinstance(e.op, ast.Not):
+        return "(negb %s)" % _bool_expr(e.operand)
+    if isinstance(e, ast.BoolOp) and isinstance(e.op, (ast.And, ast.Or)):
+        op = " && " if isinstance(e.op, ast.And) else " || "
+        return "(" + op.join(_bool_expr(v) for v in e.values) + ")"
+    raise TranslateError("unsupported expression in _exec_once_impl: %s" % ast.dump(e)[:200])
+
+
+def _translate_due(repo, outdir):
+    import ast
+    import os
+
+    from translate import fingerprint
+
+    path = os.path.join(repo, "lib/sqlalchemy/event/attr.py")
+    with open(path) as f:
+        tree = ast.parse(f.read())
+    node = fingerprint.find_node(tree, "_CompoundListener._exec_once_impl")
+    node = fingerprint._Strip().visit(node)
+    holes = []
+
+    class Hole(ast.NodeTransformer):
+        def visit_Try(self, n):
+            self.generic_visit(n)
+            if len(n.finalbody) == 1 and isinstance(n.finalbody[0], ast.If) and not n.finalbody[0].orelse:
+                holes.append(n.finalbody[0].test)
+                n.finalbody[0].test = ast.Name("HOLE", ast.Load())
+            return n
+
+    node = Hole().visit(node)
+    ast.fix_missing_locations(node)
+    got = ast.unparse(node)
+    if len(holes) != 1 or got != SKELETON_EXEC_ONCE_IMPL:
+        raise fingerprint.TranslateError(
+            "_exec_once_impl no longer has the statement structure the model transcribes:\n%s" % got[:1500]
+        )
+    expr = _bool_expr(holes[0])
+    out = os.path.join(outdir, "C28_gen.v")
+    with open(out, "w") as f:
+        f.write(
+            "(* generated from lib/sqlalchemy/event/attr.py :: _CompoundListener._exec_once_impl *)\n"
+            "From Coq Require Import Bool.\n"
+            "From SAV.event Require Import ExecOnce.\n"
+            "Definition gen_sets_flag (exception retry_on_exception : bool) : bool := %s.\n"
+            "(* exec_once passes retry_on_exception=False, exec_once_unless_exception passes True *)\n"
+            "Lemma gen_due_ok : forall e, gen_sets_flag e false = due KOnce e /\\ gen_sets_flag e true = due KUnless e.\n"
+            "Proof. intros []; split; reflexivity. Qed.\n" % expr
+        )
+    return [out]
+
+
 def translate(repo, outdir):
     from translate import fingerprint
 
-    fingerprint.check(repo, ANCHORS, "C28")
-    return []
+    gen = _translate_due(repo, outdir)  # T2: skeleton + expression of _exec_once_impl
+    fingerprint.check(repo, ANCHORS, "C28")  # pinned normalised source of everything else the models transcribe
+    return gen
 
 
 # ------------------------------------------------------------------ generators
@@ -286,6 +366,8 @@ def _random_seq(rng, maxcls=5, maxinst=3, nfn=3):
             ops.append([4, tk, tn, rng.randrange(nfn)])
         elif st["ni"]:
             ops.append([5, rng.randrange(st["ni"])])
+        if rng.random() < 0.02:  # an operation on a target that does not exist (answered by the harness itself)
+            ops.append(rng.choice([[1, nc + 1], [5, st["ni"] + 2], [3, 0, nc + 3, 0], [4, 1, st["ni"], 1], L(1, st["ni"] + 1, 0)]))
     # every class gets a final instance so that all class-level collections are observed
     for c in range(len(st["h"])):
         if st["ni"] < maxinst + len(st["h"]):
